@@ -554,6 +554,8 @@ class FieldCompiler(MessageCompiler):
         py_type = self.py_type
         if self.use_builtins:
             py_type = f"builtins.{py_type}"
+            # an earlier field of this message may shadow the builtin only now
+            self.output_file.builtins_import = True
         if self.repeated:
             return self.typing_compiler.list(py_type)
         if self.optional:
@@ -629,7 +631,16 @@ class MapEntryCompiler(FieldCompiler):
 
     @property
     def annotation(self) -> str:
-        return self.typing_compiler.dict(self.py_k_type, self.py_v_type)
+        k_type, v_type = self.py_k_type, self.py_v_type
+        # a field of this message (or this one) named like a builtin type shadows it
+        shadowed = self.parent.builtins_types | ({self.py_name} & set(dir(builtins)))
+        if k_type in shadowed:
+            k_type = f"builtins.{k_type}"
+            self.output_file.builtins_import = True
+        if v_type in shadowed:
+            v_type = f"builtins.{v_type}"
+            self.output_file.builtins_import = True
+        return self.typing_compiler.dict(k_type, v_type)
 
     @property
     def repeated(self) -> bool:
